@@ -1233,6 +1233,10 @@ func (e *Enc) frameObligations(fr *Frame, c *Contract, args []Val) {
 		if w.Ref != "" && w.Key[0] != 'G' {
 			allowed = append(allowed, app("bvuge", w.Ref, a0))
 		}
+		if w.Key[0] == 'M' && w.Lo != "" && w.Hi != "" {
+			// a write of the empty range [lo, lo) changes nothing (e.g. append of an empty slice)
+			allowed = append(allowed, eq(w.Lo, w.Hi))
+		}
 		for _, t := range byKey[w.Key] {
 			switch {
 			case t.global:
